@@ -73,9 +73,44 @@ class Walker:
     def _st(s):
         return s if len(s) == 3 else (s[0], s[1], frozenset())
 
+    def count_vals(self, e, st):
+        """abstract value of a counter expression in state st -> [(zero | pos | None, state refined by the tests passed)]"""
+        if e[0] == 'const' and isinstance(e[1], (int, float)) and not isinstance(e[1], bool):
+            return [('zero' if e[1] == 0 else ('pos' if e[1] > 0 else None), st)]
+        if e[0] == 'attr':
+            return [(dict(self._st(st)[2]).get(e), st)]
+        if e[0] == 'ite':
+            t, f = self.split(e[1], {st})
+            out = []
+            for s2 in t:
+                out += self.count_vals(e[2], s2)
+            for s2 in f:
+                out += self.count_vals(e[3], s2)
+            return out
+        if e[0] == 'bin' and e[1] == 'Add':
+            out = []
+            for va, s2 in self.count_vals(e[2], st):
+                for vb, s3 in self.count_vals(e[3], s2):
+                    out.append(('pos' if 'pos' in (va, vb) else ('zero' if (va, vb) == ('zero', 'zero') else None), s3))
+            return out
+        return [(None, st)]
+
     def split(self, cond, cur):
         """-> (states in which cond holds, states in which it does not), refining the states by what the test reveals"""
         c = cond
+        if c[0] == 'call' and c[1] == ('sym', '__until_break__') and len(c[2]) == 1:
+            return self.split(c[2][0], cur)          # "the loop was not left before": the same test, remembered
+        if c[0] == 'ite':
+            # a helper that returns  False if a else b  /  a if c else b : as and / or (same value, same evaluation order)
+            from .terms import boolify
+            c2 = boolify(c)
+            if c2[0] != 'ite':
+                return self.split(c2, cur)
+            # general conditional: on the states where the test holds the value is the first branch, elsewhere the second
+            t0, f0 = self.split(c[1], cur)
+            t1, f1 = self.split(c[2], t0) if t0 else (set(), set())
+            t2, f2 = self.split(c[3], f0) if f0 else (set(), set())
+            return t1 | t2, f1 | f2
         if c[0] == 'not':
             t, f = self.split(c[1], cur)
             return f, t
@@ -90,6 +125,20 @@ class Walker:
             for x in c[2]:
                 t1, f = self.split(x, f)
                 t |= t1
+            return t, f
+        # a counter expression compared with 0:  (c ? n : 1) + 1 == 0,  n + m > 0 ...  evaluated over {zero, pos} per state
+        if c[0] == 'cmp' and c[3] == C(0) and c[1] in ('Eq', 'NotEq', 'Gt', 'LtE') and c[2][0] in ('ite', 'bin') \
+                and any(contains(c[2], lambda x, a=a: x == a) for st in cur for a, _ in self._st(st)[2]):
+            t, f = set(), set()
+            zero_true = {'Eq': True, 'NotEq': False, 'Gt': False, 'LtE': True}[c[1]]
+            for st in cur:
+                for val, st2 in self.count_vals(c[2], st):
+                    if val is None:
+                        t.add(st2); f.add(st2)
+                    elif (val == 'zero') == zero_true:
+                        t.add(st2)
+                    else:
+                        f.add(st2)
             return t, f
         ct = counter_test(c)
         if ct is not None and any(ct[0] == a for st in cur for a, _ in self._st(st)[2]):
